@@ -373,3 +373,40 @@ pub struct CacheStats {
     pub high_watermark: usize,
     pub low_watermark: usize,
 }
+
+/// Crate-private record-tagged operations made reachable for the verification harness.
+#[cfg(feoxdb_verif)]
+impl ClockCache {
+    pub fn verif_get_for_record(&self, key: &[u8], record: &Arc<Record>) -> Option<Bytes> {
+        self.get_for_record(key, record)
+    }
+
+    pub fn verif_insert_for_record(&self, key: Vec<u8>, value: Bytes, record: &Arc<Record>) {
+        self.insert_for_record(key, value, record)
+    }
+
+    pub fn verif_remove_for_record(&self, key: &[u8], record: &Arc<Record>) {
+        self.remove_for_record(key, record)
+    }
+
+    pub fn verif_entry_overhead() -> usize {
+        std::mem::size_of::<CacheEntry>()
+    }
+
+    /// (key, record-tagged?, reference bit, size) of every entry, bucket by bucket.
+    pub fn verif_entries(&self) -> Vec<(usize, Vec<u8>, bool, bool, usize)> {
+        let mut out = Vec::new();
+        for (index, bucket) in self.buckets.iter().enumerate() {
+            for entry in bucket.read().iter() {
+                out.push((
+                    index,
+                    entry.key.clone(),
+                    entry.record.is_some(),
+                    entry.reference_bit.load(Ordering::Relaxed),
+                    entry.size,
+                ));
+            }
+        }
+        out
+    }
+}
